@@ -291,7 +291,7 @@ void run_batch(const Plan &plan, int opi, const Op &op, RunResult &r) {
     std::vector<char *> store; char **saved = environ;
     std::vector<char *> vec;
     if (!G.w.environ_null) { for (auto &s : G.w.env) vec.push_back(strdup(s.c_str())); vec.push_back(nullptr); environ = vec.data(); } else environ = nullptr;
-    tzset();
+    sim_tzset_canonical();
     ThreadArg args[MAXT];
     int o = opi;
     G.multi = true;
@@ -446,7 +446,7 @@ void run_forkexec(const Plan &plan, int opi, const Op &op, RunResult &r) {
     g_fc.op = &op; g_fc.r = &r; g_fc.opi = opi;
     std::vector<char *> vec; char **saved = environ;
     if (!G.w.environ_null) { for (auto &s : G.w.env) vec.push_back(strdup(s.c_str())); vec.push_back(nullptr); environ = vec.data(); } else environ = nullptr;
-    tzset();
+    sim_tzset_canonical();
     G.multi = true;
     S.t[0].state = TS_RUNNABLE; S.t[1].state = TS_RUNNABLE;
     pthread_create(&S.t[0].th, nullptr, forker_body, nullptr);
